@@ -138,7 +138,11 @@ def run_case(case):
             klass = ["small", "medium", "wide", "small", "large"][case["i"] % 5]
             if klass == "large" and fmt in ("fcidump", "json_qcschema", "fchk", "molden", "molekel", "wfn", "wfx", "cube", "sdf"):
                 klass = "small"
-            x0, f = go.make(fmt, rng, klass)
+            if fmt == "json_qcschema" and case["i"] % 2 == 1:
+                x0, f = go.json_built(rng)
+                klass = "built-" + f["built"]
+            else:
+                x0, f = go.make(fmt, rng, klass)
             if x0.atcoords is not None and x0.mo is None and case["i"] % 3 == 1:
                 # numerical noise around zero and signed zeros (planar / symmetric geometries out of an optimiser)
                 xyz = x0.atcoords.copy()
